@@ -1,10 +1,10 @@
 CONSTANTS
   Q = 7
   MaxSteps = 2
-  Lams <- AllLams
-  Bases <- ThreeBases
-  Export = TRUE
+  Lams <- TwoLams
+  Bases <- Base12
+  Export = FALSE
 INIT Init
 NEXT Next
-INVARIANTS TrapdoorOK AllOpen TrapdoorPathAgrees Binding SingleChange EquivExported HashBinding ExportOK
+INVARIANTS TrapdoorOK AllOpen TrapdoorPathAgrees Binding SingleChange EquivExported HashBinding ElGamalBinding ExportOK
 CHECK_DEADLOCK FALSE
